@@ -65,6 +65,10 @@ def shards(tier):
     for bp in BODY_PROTOS:
         for chunked in (True, False):
             out.append({'kind': 'bodies', 'proto': bp, 'chunked': chunked, 'tier': tier})
+    for fam in ('json', 'soap11'):
+        for chunked in (True, False):
+            for first in HIST_KINDS:
+                out.append({'kind': 'histories', 'fam': fam, 'chunked': chunked, 'first': first, 'tier': tier})
     return out
 
 
@@ -199,6 +203,89 @@ def run_bodies(shard, res, only=None):
                 res['nontrivial'] += 1
 
 
+# ---- histories of requests on ONE WsgiApplication: what an earlier request left behind (cached documents, flags)
+HIST_KINDS = ['wsdl', 'ok', 'gen', 'fault', 'invalid', 'unknown', 'malformed']
+
+
+def run_histories(shard, res, only=None):
+    import itertools
+    from spyne.server.wsgi import WsgiApplication
+    from spyne.model.fault import Fault
+    global UNIT
+    fam, chunked = shard['fam'], shard['chunked']
+    UNIT = unit_for(fam)
+    depth = 3
+    for rest in itertools.product(HIST_KINDS, repeat=depth - 1):
+        hist = [shard['first']] + list(rest)
+        if only is not None and only != hist:
+            continue
+        h = harness.DictHarness(program(), 'json', 'soft') if fam == 'json' else harness.XmlHarness(program(), 'soap11', 'soft')
+        b = h.b
+        wa = WsgiApplication(h.app, chunked=chunked)
+        trace = []
+        h.app.event_manager.add_listener('method_context_created', lambda ctx: trace.append(('CTXCREATED',)))
+        h.app.event_manager.add_listener('method_context_closed', lambda ctx: trace.append(('CTXCLOSED',)))
+        res['evaluations'] += 1
+        ok = True
+        for step, kind in enumerate(hist):
+            del trace[:]
+            b.rec.reset()
+            b.rec.script['m'] = ('raise', lambda: Fault('Client.Custom', 'nope')) if kind == 'fault' else ('ret', 6)
+            b.rec.script['g'] = ('gen', [1, 2])
+            if kind == 'wsdl':
+                env = drv.environ('GET', '/app', 'wsdl', b'', content_type=None, content_length=None)
+            else:
+                body = document(fam, {'ok': 'success'}.get(kind, kind), 2)
+                env = drv.environ('POST', '/', '', body, content_type='application/json' if fam == 'json' else 'text/xml; charset=utf-8')
+            wsgiref.util.setup_testing_defaults(env)
+            if kind == 'wsdl':
+                env['QUERY_STRING'] = 'wsdl'
+
+            def V(kind_, detail, what):
+                res['violations'].append({'sig': 'C13|history-%s|%s|%s|%s' % (kind_, fam + (',chunked' if chunked else ',unchunked'), kind + ('-after-' + '+'.join(sorted(set(hist[:step]))) if step else '-first'), detail),
+                                          'what': '[%s chunked=%s] history %s on one WsgiApplication, request #%d (%s): %s; trace %s' % (fam, chunked, hist, step + 1, kind, what, trace),
+                                          'case': {'shard': shard, 'only': hist}, 'count': 1})
+            try:
+                o = drv.call_wsgi(wsgiref.validate.validator(wa), env, trace=trace)
+            except Exception as e:
+                V('validator', type(e).__name__, 'wsgiref.validate / driver raised %r' % (e,))
+                ok = False
+                break
+            if o.escaped is not None:
+                V('escape', '%s@%s' % (type(o.escaped).__name__, o.escaped_where), 'exception out of the WSGI callable / validator: %r' % (o.escaped,))
+                ok = False
+                break
+            names = [t[0] for t in trace]
+            if o.start_calls != 1 or ('CHUNK' in names and names.index('START') > names.index('CHUNK')):
+                V('start-response', str(o.start_calls), 'start_response called %d times / after a chunk' % o.start_calls)
+                ok = False
+            if names.count('CTXCLOSED') != names.count('CTXCREATED') or names.count('CTXCLOSED') > 1 or (kind != 'malformed' and kind != 'unknown' and names.count('CTXCLOSED') != 1):
+                V('context-closed', '%d-created-%d-closed' % (names.count('CTXCREATED'), names.count('CTXCLOSED')), 'context created %d times, closed %d times' % (
+                    names.count('CTXCREATED'), names.count('CTXCLOSED')))
+                ok = False
+            elif 'CTXCLOSED' in names and 'CHUNK' in names and names.index('CTXCLOSED') < max(i for i, n in enumerate(names) if n == 'CHUNK'):
+                V('context-closed', 'before-last-chunk', 'context closed before the body was handed over')
+                ok = False
+            hd = dict((k.lower(), v) for k, v in (o.headers or []))
+            if 'content-length' in hd and o.out is not None and int(hd['content-length']) != len(o.out):
+                V('content-length', '', 'Content-Length %s, body has %d bytes' % (hd['content-length'], len(o.out)))
+                ok = False
+            entered = len(b.rec.calls)
+            if entered != (1 if kind in ('ok', 'gen', 'fault') else 0):
+                V('function-ran', '%s|%d' % (kind, entered), 'user function ran %d times' % entered)
+                ok = False
+            want_status = {'wsdl': '200', 'ok': '200', 'gen': '200'}.get(kind)
+            if want_status and not (o.status or '').startswith(want_status):
+                V('status', (o.status or '')[:3], 'status %r' % (o.status,))
+                ok = False
+            if not ok:
+                break
+        res['cov']['request_histories'] = res['cov'].get('request_histories', 0) + 1
+        res['outcomes']['conforms' if ok else 'differs'] = res['outcomes'].get('conforms' if ok else 'differs', 0) + 1
+        if ok:
+            res['nontrivial'] += 1
+
+
 def finish(tier, agg):
     m = model(tier)
     return {'states': m['states'], 'transitions': m['transitions'], 'traces_validated_against_impl': agg.cov.get('replays', 0),
@@ -312,6 +399,10 @@ def collapse(tr):
 
 def run_shard(shard, only=None):
     res = {'evaluations': 0, 'nontrivial': 0, 'outcomes': {}, 'violations': [], 'samples': [], 'cov': {'replays': 0}, 'notes': {}}
+    if shard.get('kind') == 'histories':
+        run_histories(shard, res, only)
+        from vf.props.c01 import compress
+        return compress(res)
     if shard.get('kind') == 'bodies':
         run_bodies(shard, res, only)
         from vf.props.c01 import compress
